@@ -223,7 +223,9 @@ def ref_apply(ctx, pu, f, d):
       f.b[12:12] = [0x81, 0x00] + be(d[1] << 13, 2); f.tagged = True
   elif k == 'strip':
     if f.tagged:
-      del f.b[12:16]; f.tagged = False
+      del f.b[12:16]
+      # a second (inner) 802.1Q tag is now the outermost one: the frame is still tagged
+      f.tagged = isinstance(f.b[12], int) and isinstance(f.b[13], int) and f.b[12:14] == [0x81, 0x00]
   elif k == 'dl':
     f.b[d[1]:d[1] + 6] = d[2]
   elif k == 'nw':
